@@ -9,16 +9,18 @@
 (*   start    : the start class                                                                     *)
 (*   empty    : the set of truly empty classes                                                      *)
 (*   verified : classes the verification strategy verifies (a rule with no children)               *)
-(*   ninit, nexp : number of initial strategies / of strategies in the (single) expansion set       *)
+(*   ninf, ninit, nexp, nsym : number of inferral / initial strategies, of strategies in the (single)  *)
+(*              expansion set, of symmetry strategies                                                *)
+(*   inferral, symm : class -> sequence of ninf / nsym slots, like initial / expand                  *)
 (*   initial  : class -> sequence of ninit slots, a slot is <<>> or <<rule>>: what the i-th initial  *)
 (*              strategy yields for the class (classes not in the domain: nothing)                   *)
 (*   expand   : class -> sequence of nexp slots: what the i-th expansion strategy yields             *)
 (*   flavour  : "base" (rule_db/base.py: pruning, equivalence) | "forest" (rule_db/forest.py, no    *)
 (*              reverse rules: a class is verified as soon as it is productive)                      *)
 (* a rule is [ch |-> children classes, pe |-> possibly_empty, ip |-> ignore_parent,                 *)
-(*            wk |-> workable, tw |-> two-way, sh |-> shifts].                                       *)
-(* Pack shape: no inferral strategies, any number of initial strategies, one expansion set with any *)
-(* number of strategies, plain strategies only (the README pack is ninit = nexp = 1).                *)
+(*            wk |-> workable, tw |-> two-way, sh |-> shifts, nf |-> inferrable].                    *)
+(* Pack shape: plain strategies only (no factories): any number of inferral, initial and symmetry    *)
+(* strategies, one expansion set with any number of strategies (the README pack: ninit = nexp = 1).  *)
 (*                                                                                                  *)
 (* One action = one work packet (Packet), one specification check (Check; in the base flavour it     *)
 (* marks the surviving classes verified, as RuleDBBase.pruned_dict does), or the end of the search.  *)
@@ -27,7 +29,7 @@
 (* its label) - in the forest flavour a class may become verified by one of its own earlier packets. *)
 EXTENDS Naturals, Integers, Sequences, FiniteSets, FiniteSetsExt, SequencesExt, TLC
 CONSTANT U
-NInf == 0
+NInf == U.ninf
 NInit == U.ninit
 Exp == <<U.nexp>>
 Q == INSTANCE ClassQueue
@@ -42,11 +44,13 @@ VARIABLES store,    \* sequence of classes: index = label + 1
           keys,     \* forest flavour: set of forest keys [p, ch, sh] over labels (all children, in order, with the shifts)
           marks,    \* labels marked verified in the equivalence database (verification rules + pruning survivors)
           tried,    \* labels on which verification was tried
+          infx,     \* labels that were inferral-expanded (inferral_expanded)
+          symx,     \* labels that were symmetry-expanded (symmetry_expanded)
           expanded, \* packets that were expanded (history, for the properties)
           skipped,  \* packets handed out but skipped because their label was verified
           phase,    \* "run" | "exhausted" | "found" | "notfound"
           checks    \* number of specification checks so far
-svars == <<store, empt, q, rules, keys, marks, tried, expanded, skipped, phase, checks>>
+svars == <<store, empt, q, rules, keys, marks, tried, infx, symx, expanded, skipped, phase, checks>>
 
 LabelOfC(st, c) == (CHOOSE i \in 1..Len(st) : st[i] = c) - 1
 KnownC(st, c) == \E i \in 1..Len(st) : st[i] = c
@@ -56,7 +60,7 @@ IsEmptyCls(c) == c \in U.empty
 Slot(f, c, i) == IF c \in DOMAIN f THEN f[c][i] ELSE <<>>
 
 \* the state threaded through the nested calls (try_verify inside add_rule inside _expand)
-S(st, em, qq, rs, ks, mk, tr) == [store |-> st, empt |-> em, q |-> qq, rules |-> rs, keys |-> ks, marks |-> mk, tried |-> tr]
+S(st, em, qq, rs, ks, mk, tr, ix, sx) == [store |-> st, empt |-> em, q |-> qq, rules |-> rs, keys |-> ks, marks |-> mk, tried |-> tr, infx |-> ix, symx |-> sx]
 SetEm(em, l, v) == [x \in DOMAIN em \cup {l} |-> IF x = l THEN v ELSE em[x]]
 GetEm(em, l) == IF l \in DOMAIN em THEN em[l] ELSE "U"
 
@@ -83,7 +87,7 @@ RuleDBAdd(s, start, ends, rule, isver) ==
                          ELSE IF \E x \in @ : x.s = r.s /\ x.e = r.e /\ x.tw THEN @ ELSE @ \cup {r},
                !.marks = IF isver THEN @ \cup {start} ELSE @]
 
-VerRule == [ch |-> <<>>, pe |-> FALSE, ip |-> TRUE, wk |-> FALSE, tw |-> FALSE, sh |-> <<>>]
+VerRule == [ch |-> <<>>, pe |-> FALSE, ip |-> TRUE, wk |-> FALSE, tw |-> FALSE, sh |-> <<>>, nf |-> TRUE]
 EmptyKey(l) == [p |-> l, ch |-> <<>>, sh |-> <<>>]
 \* RuleDBForest._add_empty_rule: every empty child of a possibly_empty rule that has no empty rule yet gets one through
 \* searcher.add_rule(label, (), EmptyStrategy rule): it stops being yielded (ignore_parent) and its key is stored
@@ -108,6 +112,26 @@ ForestAdd(s, start, ends, rule) ==
                 THEN (IF IsEmptyCls(ClassAtL(s1.store, x)) THEN "T" ELSE "F") ELSE s1.empt[x]]
   IN [s1 EXCEPT !.empt = em2, !.keys = @ \cup {[p |-> start, ch |-> ends, sh |-> rule.sh]}]
 RECURSIVE TryVerify(_, _), AddRule(_, _, _, _, _), AddChildren(_, _, _, _)
+DbAdd(s, start, ends, rule, isver) == IF Forest THEN ForestAdd(s, start, ends, rule) ELSE RuleDBAdd(s, start, ends, rule, isver)
+\* a slot is usable for a class unless it is empty or an equivalence strategy returning the same class (dropped)
+Usable(slot, c) == slot # <<>> /\ ~(Len(slot[1].ch) = 1 /\ slot[1].ch[1] = c)
+\* _symmetry_expand(class, label): the emptiness of the class is asked (and cached); every symmetric image gets a label,
+\* inherits the emptiness, is recorded by ruledb.add directly (no add_rule: no verification, not queued) and stops being yielded
+RECURSIVE SymLoop(_, _, _, _, _)
+SymLoop(s, l, i, empty, syms) ==
+  IF i > U.nsym THEN [s EXCEPT !.symx = @ \cup {l} \cup syms]
+  ELSE LET c == ClassAtL(s.store, l)  slot == Slot(U.symm, c, i) IN
+       IF ~Usable(slot, c) THEN SymLoop(s, l, i + 1, empty, syms)
+       ELSE LET rule == slot[1]
+                st2 == WithC(s.store, rule.ch[1])
+                sl == LabelOfC(st2, rule.ch[1])
+                s1 == [s EXCEPT !.store = st2, !.empt = SetEm(@, sl, IF empty THEN "T" ELSE "F")]
+                s2 == DbAdd(s1, l, <<sl>>, rule, FALSE)
+            IN SymLoop([s2 EXCEPT !.q = Q!SetStop(@, sl)], l, i + 1, empty, syms \cup {sl})
+SymExpand(s, l) ==
+  LET c == ClassAtL(s.store, l)
+      s1 == [s EXCEPT !.empt = SetEm(@, l, IF GetEm(@, l) = "U" THEN (IF IsEmptyCls(c) THEN "T" ELSE "F") ELSE GetEm(@, l))]
+  IN SymLoop(s1, l, 1, GetEm(s1.empt, l) = "T", {})
 \* try_verify(class, label)
 TryVerify(s, l) ==
   IF l \in s.tried THEN s
@@ -121,15 +145,16 @@ AddChildren(s, ends, rule, i) ==
   IF i > Len(ends) THEN s
   ELSE LET l == ends[i]
            s1 == IF ~rule.pe THEN [s EXCEPT !.empt = SetEm(@, l, "F")] ELSE s
-           s2 == IF rule.wk THEN [s1 EXCEPT !.q = Q!Add(@, l)] ELSE s1
-           \* (no inferral strategies in this pack shape: set_not_inferrable has no effect on what is handed out)
-           s3 == TryVerify(s2, l)
+           sy == IF U.nsym > 0 /\ l \notin s1.symx THEN SymExpand(s1, l) ELSE s1
+           s2 == IF rule.wk THEN [sy EXCEPT !.q = Q!Add(@, l)] ELSE sy
+           s2b == IF ~rule.nf THEN [s2 EXCEPT !.q = Q!SetNotInf(@, l)] ELSE s2
+           s3 == TryVerify(s2b, l)
        IN AddChildren(s3, ends, rule, i + 1)
 \* add_rule(start, ends, rule)
 AddRule(s, start, ends, rule, isver) ==
   LET s1 == AddChildren(s, ends, rule, 1)
       s2 == IF rule.ip THEN [s1 EXCEPT !.q = Q!SetStop(@, start)] ELSE s1
-  IN IF Forest THEN ForestAdd(s2, start, ends, rule) ELSE RuleDBAdd(s2, start, ends, rule, isver)
+  IN DbAdd(s2, start, ends, rule, isver)
 \* _expand_class_with_strategy + add_rule for one strategy slot
 RECURSIVE LabelAll(_, _, _)
 LabelAll(st, chs, i) == IF i > Len(chs) THEN st ELSE LabelAll(WithC(st, chs[i]), chs, i + 1)
@@ -142,12 +167,34 @@ ExpandWith(s, l, slot) ==
                    ends == [i \in 1..Len(rule.ch) |-> LabelOfC(st2, rule.ch[i])]
                IN AddRule([s EXCEPT !.store = st2], l, ends, rule, FALSE)
 
-Cur == S(store, empt, q, rules, keys, marks, tried)
-Install(s) == /\ store' = s.store /\ empt' = s.empt /\ q' = s.q /\ rules' = s.rules /\ keys' = s.keys /\ marks' = s.marks /\ tried' = s.tried
+\* _inferral_expand(class, label, strategies, skip): the first strategy (in the given order, the one that produced this
+\* class excepted) that yields a rule is applied, the parent stops being inferrable, and the inferred class is expanded in
+\* turn with the order rotated to start after that strategy; a label is inferral-expanded at most once
+RECURSIVE InfExpand(_, _, _, _)
+InfExpand(s, l, order, skip) ==
+  IF l \in s.infx THEN s
+  ELSE LET s0 == [s EXCEPT !.infx = @ \cup {l}]
+           c == ClassAtL(s.store, l)
+           cand == {i \in 1..Len(order) : order[i] # skip /\ Usable(Slot(U.inferral, c, order[i]), c)}
+       IN IF cand = {} THEN [s0 EXCEPT !.q = Q!SetNotInf(@, l)]
+          ELSE LET i == Min(cand)
+                   s1 == ExpandWith(s0, l, Slot(U.inferral, c, order[i]))
+                   infl == LabelOfC(s1.store, Slot(U.inferral, c, order[i])[1].ch[1])
+                   s2 == [s1 EXCEPT !.q = Q!SetNotInf(@, l)]
+                   s3 == InfExpand(s2, infl, SubSeq(order, i + 1, Len(order)) \o SubSeq(order, 1, i), order[i])
+               IN [s3 EXCEPT !.q = Q!SetNotInf(@, l)]
 
+Cur == S(store, empt, q, rules, keys, marks, tried, infx, symx)
+Install(s) == /\ store' = s.store /\ empt' = s.empt /\ q' = s.q /\ rules' = s.rules /\ keys' = s.keys /\ marks' = s.marks /\ tried' = s.tried
+              /\ infx' = s.infx /\ symx' = s.symx
+
+\* __init__: label the start class, queue it, try to verify it, symmetry-expand it
+InitState == LET s0 == TryVerify(S(<<U.start>>, <<>>, Q!Add(Q!InitQ, 0), {}, {}, {}, {}, {}, {}), 0)
+             IN IF U.nsym > 0 THEN SymExpand(s0, 0) ELSE s0
 SInit ==
-  LET s1 == TryVerify(S(<<U.start>>, <<>>, Q!Add(Q!InitQ, 0), {}, {}, {}, {}), 0)
+  LET s1 == InitState
   IN /\ store = s1.store /\ empt = s1.empt /\ q = s1.q /\ rules = s1.rules /\ keys = s1.keys /\ marks = s1.marks /\ tried = s1.tried
+     /\ infx = s1.infx /\ symx = s1.symx
      /\ expanded = <<>> /\ skipped = <<>> /\ phase = "run" /\ checks = 0
 
 \* one iteration of the loop in _expand_classes_for, as a function of the threaded state:
@@ -157,7 +204,8 @@ PacketStep(s) ==
   IF r.ret = Q!StopP THEN [s |-> [s EXCEPT !.q = r.q], kind |-> "stop", p |-> r.ret]
   ELSE LET s1 == [s EXCEPT !.q = r.q]  l == r.ret.l IN
        IF VerifiedL(s1, l) THEN [s |-> s1, kind |-> "skip", p |-> r.ret]
-       ELSE [s |-> ExpandWith(s1, l, IF r.ret.k = "init" THEN Slot(U.initial, ClassAtL(s1.store, l), r.ret.i) ELSE Slot(U.expand, ClassAtL(s1.store, l), r.ret.i)),
+       ELSE [s |-> IF r.ret.k = "inf" THEN InfExpand(s1, l, [i \in 1..U.ninf |-> i], 0)
+                   ELSE ExpandWith(s1, l, IF r.ret.k = "init" THEN Slot(U.initial, ClassAtL(s1.store, l), r.ret.i) ELSE Slot(U.expand, ClassAtL(s1.store, l), r.ret.i)),
              kind |-> "expand", p |-> r.ret]
 Packet ==
   /\ phase = "run"
@@ -181,12 +229,11 @@ Check ==
           /\ marks' = marks \cup p.surv
           /\ phase' = IF p.rep[0] \in p.surv THEN "found" ELSE IF phase = "exhausted" THEN "notfound" ELSE "run"
   /\ checks' = checks + 1
-  /\ UNCHANGED <<store, empt, q, rules, keys, tried, expanded, skipped>>
+  /\ UNCHANGED <<store, empt, q, rules, keys, tried, infx, symx, expanded, skipped>>
 SNext == Packet \/ Check
 SSpec == SInit /\ [][SNext]_svars
 
 \* the same search with no check before the queue is drained (a deterministic run): the reference
-InitState == TryVerify(S(<<U.start>>, <<>>, Q!Add(Q!InitQ, 0), {}, {}, {}, {}), 0)
 RECURSIVE Drain(_, _)
 Drain(s, fuel) == IF fuel = 0 THEN s ELSE LET r == PacketStep(s) IN IF r.kind = "stop" THEN r.s ELSE Drain(r.s, fuel - 1)
 Reference == Drain(InitState, 500)
@@ -195,6 +242,7 @@ RefAnswer == HasSpecS(Reference)
 \* ---- properties ---------------------------------------------------------------------------------
 \* C04 at the model level: every stored rule is what the universe offers for the class carrying its start label
 Offered(c) == {<<>>} \cup {Slot(U.initial, c, i) : i \in 1..U.ninit} \cup {Slot(U.expand, c, i) : i \in 1..U.nexp}
+                     \cup {Slot(U.inferral, c, i) : i \in 1..U.ninf} \cup {Slot(U.symm, c, i) : i \in 1..U.nsym}
 RuleFaithful ==
   \A r \in rules :
      LET c == ClassAtL(store, r.s) IN
